@@ -40,6 +40,19 @@ func unescape(s string) string {
 	return u
 }
 
+// previousRun: with output "file-with-content" the events file already holds the events of an earlier run of the
+// daemon (a restart): they must still be there, whole, in front of the new ones.
+func previousRun(sc scenario) []string {
+	if sc.Output != "file-with-content" {
+		return nil
+	}
+	var out []string
+	for i := 0; i < 3; i++ {
+		out = append(out, fmt.Sprintf(`{"metadata":{"auditId":"prev-%d"},"type":"UserLogin","loggedAt":"2023-01-0%dT00:00:00Z","source":{"type":"IP","value":"10.1.1.%d","extra":{"port":"4%d"}},"outcome":"failed","subjects":{"loggedAs":"previous%d","pid":"%d","userID":"unknown"},"component":"sshd","target":{"host":"n","machine-id":"m"}}`+"\n", i, i+1, i, i, i, 11+i))
+	}
+	return out
+}
+
 func runScenario(sc scenario) (msg string, nlines int, nwrites int) {
 	d := &daemon{dir: newDir()}
 	defer os.RemoveAll(d.dir)
@@ -74,7 +87,7 @@ func runScenario(sc scenario) (msg string, nlines int, nwrites int) {
 			}
 		}()
 	} else {
-		_ = os.WriteFile(d.outPath, nil, 0o644)
+		_ = os.WriteFile(d.outPath, []byte(strings.Join(previousRun(sc), "")), 0o644)
 		close(readerDone)
 	}
 	if err := d.start(!noTrace); err != nil {
@@ -104,7 +117,7 @@ func runScenario(sc scenario) (msg string, nlines int, nwrites int) {
 	for i := 0; i < n; i++ {
 		wantActions[fmt.Sprint(20000+i)] = 3
 	}
-	wantFailed := 0
+	wantFailed := len(previousRun(sc))
 	switch sc.Shape {
 	case "sustained":
 		// both pipelines write to the output at the same time for a long stretch: first every session is
@@ -124,7 +137,7 @@ func runScenario(sc scenario) (msg string, nlines int, nwrites int) {
 			}
 		}
 		m := 250 * n
-		wantFailed = m
+		wantFailed += m
 		var failed, activity strings.Builder
 		for j := 0; j < m; j++ {
 			fmt.Fprintf(&failed, "%d Failed password for invalid user guest%d from 10.9.%d.%d port %d ssh2\n", 40000+j, j, j/250%250, j%250+1, 1024+j%60000)
@@ -191,7 +204,7 @@ func runScenario(sc scenario) (msg string, nlines int, nwrites int) {
 		return "the daemon did not exit after its input pipes were closed", 0, 0
 	}
 	<-readerDone
-	if sc.Output == "file" {
+	if sc.Output != "fifo" {
 		b, _ := os.ReadFile(d.outPath)
 		lines = strings.SplitAfter(string(b), "\n")
 		if len(lines) > 0 && lines[len(lines)-1] == "" {
@@ -199,6 +212,15 @@ func runScenario(sc scenario) (msg string, nlines int, nwrites int) {
 		}
 	}
 	nlines = len(lines)
+	for i, pl := range previousRun(sc) {
+		if i >= len(lines) || lines[i] != pl {
+			got := "<missing>"
+			if i < len(lines) {
+				got = lines[i]
+			}
+			return fmt.Sprintf("the events file held %d events of an earlier run; after this run its line %d reads %q instead of %q", len(previousRun(sc)), i+1, short(got, 120), short(pl, 120)), nlines, 0
+		}
+	}
 	// --- every line is one complete JSON event; multiset as expected; causal order
 	loginAt := map[string]int{}
 	loginIdentity := map[string]string{}
@@ -312,11 +334,11 @@ func runScenario(sc scenario) (msg string, nlines int, nwrites int) {
 		// several open file descriptions without O_APPEND keep separate offsets: writes overwrite each other
 		return fmt.Sprintf("the events output was opened %d times, %d of them without O_APPEND", opens, noAppend), nlines, nwrites
 	}
-	if nwrites != nlines {
+	if nwrites != nlines-len(previousRun(sc)) {
 		if b, err := os.ReadFile(d.strace); err == nil {
 			_ = os.WriteFile(filepath.Join(os.Getenv("VERIF_DIR"), ".build", "last-strace.out"), b, 0o644)
 		}
-		return fmt.Sprintf("%d write(2) calls produced %d output lines (want one write per event)", nwrites, nlines), nlines, nwrites
+		return fmt.Sprintf("%d write(2) calls produced %d new output lines (want one write per event)", nwrites, nlines-len(previousRun(sc))), nlines, nwrites
 	}
 	return "", nlines, nwrites
 }
@@ -367,6 +389,8 @@ func runC10c(run *mc.Run) int {
 	if run.Thorough() {
 		scs = append(scs, scenario{200, "simultaneous", "file"})
 	}
+	// a restart: the events file already has content
+	scs = append(scs, scenario{2, "alternating", "file-with-content"})
 	// without strace (which slows and serialises the daemon): both pipelines writing for a long stretch
 	scs = append(scs, scenario{16, "sustained", "file"})
 	if run.Thorough() {
@@ -392,7 +416,7 @@ func runC10c(run *mc.Run) int {
 		}
 	}
 	cov := mc.Coverage{Level: "exploration", Evaluations: len(scs), Distinct: len(scs) - inconcl, Exhaustive: inconcl == 0, Samples: samples,
-		Rule:  "the built daemon under strace (-f -e trace=openat,write) with bursts on both FIFOs: sessions {2,16(,200)} x burst shape {alternating, simultaneous} x output {regular file, FIFO}, plus - without strace - a sustained stretch in which the sshd worker writes 250 x N failed-login events while the audit worker writes 250 x N actions of N already correlated sessions; oracle: never several descriptors without O_APPEND, every write(2) on it returns its full length and carries exactly one complete JSON line, every output line parses, none twice, each login's UserLogin precedes its UserActions, per session exactly 1+3 events. OS schedules are not enumerated (order-independent oracle). distinct_nontrivial = conclusive scenarios",
+		Rule:  "the built daemon under strace (-f -e trace=openat,write) with bursts on both FIFOs: sessions {2,16(,200)} x burst shape {alternating, simultaneous} x output {regular file, FIFO}, a regular file that already holds the events of an earlier run (restart), plus - without strace - a sustained stretch in which the sshd worker writes 250 x N failed-login events while the audit worker writes 250 x N actions of N already correlated sessions; oracle: never several descriptors without O_APPEND, every write(2) on it returns its full length and carries exactly one complete JSON line, every output line parses, none twice, each login's UserLogin precedes its UserActions, per session exactly 1+3 events. OS schedules are not enumerated (order-independent oracle). distinct_nontrivial = conclusive scenarios",
 		Extra: map[string]any{"output_lines_checked": lines}}
 	cov.Assumptions = []string{"Linux appends a single write(2) to an O_APPEND file atomically (and <= PIPE_BUF to a FIFO)", "strace's rendering of write(2)"}
 	return run.Finish(cov)
